@@ -515,7 +515,9 @@ class Verdict:
         self.cov['checker_cmd'] = (gate['build_cmd'] + ' && ' + gate['props']['cmd']).strip()
         self.cov['theorems'] = [t['name'] for t in gate['props']['theorems']]
         tb = ['Coq 8.16.1 kernel + vm_compute (no native_compute)']
-        tb += ['axiom: ' + a for a in gate['axioms']] or []
+        prim = ('PrimFloat.', 'Uint63.', 'PrimInt63.', 'Sint63.', 'FloatOps.', 'PArray.', 'PrimString.')
+        tb += [('primitive (kernel type/operation, not an axiom): ' if a.startswith(prim) else 'axiom: ') + a
+               for a in gate['axioms']]
         if not gate['axioms']:
             tb.append('Print Assumptions: all property theorems closed under the global context')
         self.cov['trusted_base'] = tb
